@@ -23,7 +23,7 @@ Runs(wire) == LET RECURSIVE R(_, _) R(i, acc) ==
                          ELSE R(i + 1, Append(acc, <<wire[i], 1>>))
               IN R(1, <<>>)
 
-FrameLenOf(v, w) == IF w = 9 THEN 2 ELSE v.lens[w]
+FrameLenOf(v, w) == IF w \in {9, 10} THEN 2 ELSE v.lens[w]
 
 \* model prediction for writers served one after the other in index order by a socket
 \* that accepts k bytes in total: [n, ok] per writer, nothing after a torn frame
@@ -36,7 +36,7 @@ Predict(v) ==
   IN P(1, 0, FALSE, <<>>)
 
 Check(v) ==
-  LET wire == IF Sequential THEN v.wire \o v.wire2 ELSE v.wire
+  LET wire == IF Sequential THEN v.wire \o v.wire2 \o v.wire3 ELSE v.wire
       r == Runs(wire)
       nW == Len(v.lens)
       tornRound1 == \E i \in 1 .. Len(Runs(v.wire)) : Runs(v.wire)[i][2] < FrameLenOf(v, Runs(v.wire)[i][1])
@@ -50,7 +50,9 @@ Check(v) ==
   ELSE IF \E w \in 1 .. nW : v.res[w].err = "none" /\ v.res[w].n # v.lens[w] THEN "OkImpliesWhole"
   ELSE IF \E w \in 1 .. nW : v.res[w].n < v.lens[w] /\ v.res[w].err = "none" THEN "OkImpliesWhole"
   ELSE IF Sequential /\ tornRound1 /\ (Len(v.wire2) > 0 \/ v.res2.err = "none") THEN "NothingAfterPartial"
+  ELSE IF Sequential /\ tornRound1 /\ (Len(v.wire3) > 0 \/ v.res3.err = "none") THEN "NothingAfterPartial"
   ELSE IF Sequential /\ ~tornRound1 /\ v.k < 0 /\ (v.res2.err # "none" \/ Len(v.wire2) # 2) THEN "SpuriousRefusal"
+  ELSE IF Sequential /\ ~tornRound1 /\ v.k < 0 /\ (v.res3.err # "none" \/ Len(v.wire3) # 2) THEN "SpuriousRefusal"
   ELSE IF Sequential /\ (\E w \in 1 .. nW : v.res[w].n # Predict(v)[w].n \/ (v.res[w].err = "none") # Predict(v)[w].ok) THEN "ModelMismatch"
   ELSE "none"
 
